@@ -34,7 +34,7 @@ def perm_dict(d: Dict[str, Any], idx) -> Dict[str, Any]:
 
 
 def config(V: List[Any], tvals: List[Any], P: Dict[str, Any], *, element=None, collection="IntColl", expr_a="t + s", expr_b="m", mode="combinatorial", broadcast=False,
-           proc1=None, extra_node=False, swap_nodes=False, run_space: Optional[Dict[str, Any]] = None, three_vars=True, seq_var_name="t", two_sweeps=False, unref_vals=None):
+           proc1=None, extra_node=False, swap_nodes=False, run_space: Optional[Dict[str, Any]] = None, three_vars=True, seq_var_name="t", two_sweeps=False, unref_vals=None, swap_sweeps=False):
     """P maps a mapping name to a permutation index (absent = reference order)."""
     from vt import lib
 
@@ -58,7 +58,11 @@ def config(V: List[Any], tvals: List[Any], P: Dict[str, Any], *, element=None, c
     if two_sweeps:
         # a second sweep node of the same kind (same generated class name) with another definition
         sweep2 = {"variables": {"q": {"values": [V[2], V[3]]}}, "parameters": {"a": "2 * q"}, "mode": "combinatorial", "broadcast": False, "collection": collection}
-        nodes = [n0, n1, n2, {"processor": lib.OpSum, "parameters": {}}, {"processor": element, "derive": {"parameter_sweep": sweep2}, "parameters": {}}]
+        n4 = {"processor": element, "derive": {"parameter_sweep": sweep2}, "parameters": {}}
+        if swap_sweeps:
+            # the two sweep nodes exchange their whole definitions (same element, same plain parameters)
+            n2, n4 = dict(n2, derive=n4["derive"]), dict(n4, derive=n2["derive"])
+        nodes = [n0, n1, n2, {"processor": lib.OpSum, "parameters": {}}, n4]
     if swap_nodes:
         nodes = [n0, {"processor": lib.OpAddDef, "parameters": {"addend": V[1]}}, {"processor": lib.OpAff, "parameters": {"factor": V[7]}}][:3]
         nodes = [nodes[0], nodes[2], nodes[1]]
